@@ -11,7 +11,7 @@
 EXTENDS Integers, Sequences, FiniteSets, TLC
 
 Nil == "nil"
-Range(s) == {s[i] : i \in 1..Len(s)}
+Rng(s) == {s[i] : i \in 1..Len(s)}
 
 RECURSIVE SumOver(_, _)      \* copied from Balance.tla
 SumOver(f, D) == IF D = {} THEN 0 ELSE LET x == CHOOSE y \in D : TRUE IN f[x] + SumOver(f, D \ {x})
